@@ -299,7 +299,10 @@ class _Gen13(object):
         self.saved = []
         self.savedfmt = {}
         rnd = rng.randint
-        self.centres = [0, 10, 100, 1000, 32767, MAXLINE, rnd(0, MAXLINE), rnd(0, MAXLINE)]
+        # 12301 + 256 k: the tokenised line number is a CR byte followed by an ASCII digit, which matters to
+        # anything that reads a tokenised file as text
+        self.centres = [0, 10, 100, 1000, 32767, MAXLINE, rnd(0, MAXLINE),
+                        12301 + 256 * rnd(0, 9) if rng.random() < 0.5 else rnd(0, MAXLINE)]
         self.dense = rng.random() < 0.5
 
     def uid(self):
@@ -482,7 +485,19 @@ def gen13(rng, tier):
         mem = 5232 + int(round(2 ** rng.uniform(5.5, 12.5)))
     nops = rng.randint(8, 60) if quick else rng.randint(30, 400)
     g = _Gen13(rng, tier)
-    ops = g.ops(nops, faulty, mem)
+    pre = []
+    if rng.random() < 0.05:
+        # a history that starts with a tokenised file whose first line number is a CR byte followed by a digit
+        # (a text-mode reader sees a line break there), then goes on as usual
+        n = 12301 + 256 * rng.randint(0, 9)
+        pre = [dict(g.line_rec(), op='line', n=n, chk=False),
+               {'op': 'save', 'name': 'P0', 'fmt': 'B'}]
+        g.have.add(n)
+        g.saved.append('P0')
+        g.savedfmt['P0'] = ('B', 1)
+        if rng.random() < 0.7:
+            pre.append({'op': 'merge', 'name': 'P0', 'chk': False})
+    ops = pre + g.ops(nops, faulty, mem)
     cfg = {'max_memory': mem, 'faults': faulty, 'syntax': rng.choice(['advanced', 'advanced', 'pcjr', 'tandy'])}
     return {'machine': NAME, 'prop': 'C13', 'cfg': cfg, 'ops': ops}
 
@@ -810,7 +825,14 @@ def run13(case):
                     if not failed:
                         run.probe('merge_binary_no_error')
                     note('mergeB', outcome, False)
-                    check_list(tag + ':tokenised-file')
+                    if got != blist:
+                        # documented: "Bad file mode ... the program in memory remains unchanged"
+                        run.violate('C13', 'merge-of-tokenised-file-changes-program:%s-file' % kind,
+                                    'MERGE of a file saved without ,A gave %r and changed the program: %s' % (
+                                        r.errs, _diff(got, blist)))
+                        E.x(b'NEW')
+                        M.lines = {}
+                        check_list(tag + ':resync')
                     return
                 if intact and not merge:
                     full = {n: dict(v) for n, v in snap.items()}
@@ -833,10 +855,13 @@ def run13(case):
                     # the listing (index) may look fine while program memory holds something else
                     nums, problem = E.peek_chain(len(full) + len(before) + 3)
                     if problem is not None or nums != sorted(M.lines):
+                        E.x(b'SAVE "C:GHOST",A')
+                        ghost = _read(os.path.join(root, 'c', 'GHOST.BAS'))
                         run.violate('C13', 'load-failed-midway:memory-disagrees-with-listing:%s-file' % kind,
                                     'LOAD of a %s file failed with %r after an injected read error; LIST shows lines %r but the '
-                                    'line links from DS:30h give %r (%s)' % (kind, r.errs if r else 'internal error',
-                                                                             sorted(M.lines)[:20], nums[:20], problem))
+                                    'line links from DS:30h give %r (%s) and SAVE,A (sequential scan of program memory) writes %r' % (
+                                        kind, r.errs if r else 'internal error', sorted(M.lines)[:20], nums[:20], problem,
+                                        (ghost or b'')[:300]))
                         E.x(b'NEW')
                         M.lines = {}
                     note('load' + kind, outcome, relaxed)
@@ -1581,6 +1606,11 @@ def simplify(cfg, ops):
             yield cfg, ops[:i] + [dict(op, parts=['REM x'])] + ops[i + 1:]
         if k == 'auto' and len(op.get('items', [])) > 1:
             yield cfg, ops[:i] + [dict(op, items=op['items'][:-1])] + ops[i + 1:]
+        if k == 'auto':
+            its = [it for it in op.get('items', []) if not it.get('skip')]
+            if its:
+                yield cfg, ops[:i] + [{'op': 'line', 'n': 10, 'parts': its[0]['parts'], 'k': its[0]['k'],
+                                      'uid': its[0].get('uid'), 'chk': False}] + ops[i + 1:]
         if k in ('load', 'merge', 'save') and 'fault' in op:
             yield cfg, ops[:i] + [{k_: v for k_, v in op.items() if k_ != 'fault'}] + ops[i + 1:]
         if op.get('chk'):
